@@ -257,4 +257,196 @@ theorem MinIndex_eq (s : PStore) (cap : Int) (fuel : Nat) (hfull : PagesFull s) 
   rw [← List.range_eq_range'] at h
   exact h
 
+/-! ## MaxIndex -/
+
+def maxOut (r : Option Int) : Int × GoErr :=
+  match r with
+  | some m => (m, GoErr.nil)
+  | none => (0, errUndefinedMaxIndex)
+
+theorem max_loop3_false (l : List Int) (m : Int) :
+    BufferedPaginatedStore.MaxIndex.loop3 l false m = .done (false, l.foldl max m) := by
+  induction l generalizing m with
+  | nil => rfl
+  | cons x xs ih =>
+    unfold BufferedPaginatedStore.MaxIndex.loop3
+    simp only [Bool.false_or, List.foldl_cons]
+    by_cases h : m < x
+    · simp only [h, decide_true, if_true]; rw [ih, Int.max_eq_right (by omega)]
+    · simp only [h, decide_false]; rw [Int.max_eq_left (by omega)]; exact ih m
+
+theorem max_loop3 (l : List Int) :
+    BufferedPaginatedStore.MaxIndex.loop3 l true 0
+      = .done ((PStore.listMax? l).isNone, (PStore.listMax? l).getD 0) := by
+  cases l with
+  | nil => rfl
+  | cons x xs =>
+    unfold BufferedPaginatedStore.MaxIndex.loop3
+    simp only [Bool.true_or, if_true]
+    rw [max_loop3_false]; rfl
+
+theorem max_loop2 (g : GP) (p : Int) (pg : Array Rat) (ls : Nat) (X : Loop Int (Int × GoErr)) :
+    ∀ (n fuel : Nat), n ≤ pg.size → n + 1 ≤ fuel →
+      Loop.elimL (BufferedPaginatedStore.MaxIndex.loop2 (ls : Int) pg.toList g p fuel ((n : Int) - 1)) (fun _ => X) =
+        match ((List.range n).reverse.filter (fun l => decide (l ≥ ls))).find? (fun l => pg.getD l 0 > 0) with
+        | some l' => .ret (BufferedPaginatedStore.index g p (l' : Int), GoErr.nil)
+        | none => X := by
+  intro n
+  induction n with
+  | zero =>
+    intro fuel hn hf
+    obtain ⟨f, rfl⟩ : ∃ f, fuel = f + 1 := ⟨fuel - 1, by omega⟩
+    unfold BufferedPaginatedStore.MaxIndex.loop2
+    rw [if_neg (by simp only [decide_eq_true_eq]; omega)]
+    rfl
+  | succ n ih =>
+    intro fuel hn hf
+    obtain ⟨f, rfl⟩ : ∃ f, fuel = f + 1 := ⟨fuel - 1, by omega⟩
+    unfold BufferedPaginatedStore.MaxIndex.loop2
+    rw [show (((n + 1 : Nat) : Int) - 1) = (n : Int) by omega]
+    rw [List.range_succ, List.reverse_append, List.reverse_singleton, List.singleton_append,
+      List.filter_cons]
+    by_cases hls : ls ≤ n
+    · rw [if_pos (by simp only [decide_eq_true_eq]; omega), idx_nat_toList pg n (by omega)]
+      simp only [GoSem.optL_some, ge_iff_le, hls, decide_true, if_true, List.find?_cons, gt_iff_lt]
+      by_cases hpos : (0 : Rat) < pg.getD n 0
+      · simp only [hpos, decide_true, if_true]; rfl
+      · simp only [hpos, decide_false]
+        exact ih f (by omega) (by omega)
+    · rw [if_neg (by simp only [decide_eq_true_eq]; omega)]
+      have hnil : List.filter (fun l => decide (l ≥ ls)) (List.range n).reverse = [] := by
+        rw [List.filter_eq_nil_iff]
+        intro a ha
+        have : a < n := by simpa using ha
+        simp only [ge_iff_le, decide_eq_true_eq]; omega
+      simp only [ge_iff_le, hls, decide_false, hnil]
+      rfl
+
+/-- the largest page size (bounds the line loop of `MaxIndex`, which starts at `len(page)-1`) -/
+def maxPageSize (s : PStore) : Nat := (s.pages.toList.map Array.size).foldr max 0
+
+theorem le_foldr_max (l : List Nat) (a : Nat) (h : a ∈ l) : a ≤ l.foldr max 0 := by
+  induction l with
+  | nil => cases h
+  | cons x xs ih =>
+    simp only [List.foldr_cons]
+    rcases List.mem_cons.1 h with rfl | h
+    · exact Nat.le_max_left _ _
+    · exact Nat.le_trans (ih h) (Nat.le_max_right _ _)
+
+theorem size_le_maxPageSize (s : PStore) (k : Nat) : (s.pages.getD k #[]).size ≤ maxPageSize s := by
+  by_cases hk : k < s.pages.size
+  · apply le_foldr_max
+    simp only [List.mem_map, Array.mem_toList_iff]
+    exact ⟨s.pages.getD k #[], by simp [hk], rfl⟩
+  · simp [hk]
+
+theorem max_page (s : PStore) (cap : Int) (pg : Array Rat) (p : Int) (f : Nat) (ls : Nat) (lg : Int)
+    (hlg : lg = (ls : Int)) (hf : pg.size + 1 ≤ f)
+    (X : Loop Int (Int × GoErr)) (K : Int → Res (Int × GoErr)) (R : Option Int)
+    (hnext : Loop.elim X K = .ok (maxOut R)) :
+    Loop.elim (if (GoSem.len pg.toList == 0) = true then X
+        else Loop.elimL (BufferedPaginatedStore.MaxIndex.loop2 lg pg.toList (toGen s cap) p f
+          (GoSem.len pg.toList - 1)) (fun _ => X)) K
+      = .ok (maxOut (if pg.size = 0 then R
+          else match ((List.range pg.size).reverse.filter (fun l => decide (l ≥ ls))).find?
+                (fun l => decide (pg.getD l 0 > 0)) with
+            | some l => some (s.index p l)
+            | none => R)) := by
+  subst hlg
+  have hlen : (GoSem.len pg.toList == 0) = decide (pg.size = 0) := by
+    by_cases hz : pg.size = 0
+    · simp [GoSem.len, hz]
+    · simp only [GoSem.len, Array.length_toList, hz, decide_false, beq_eq_false_iff_ne, ne_eq]; omega
+  rw [hlen]
+  by_cases hz : pg.size = 0
+  · simp only [hz, decide_true, if_true]
+    exact hnext
+  · simp only [hz, decide_false, Bool.false_eq_true, if_false]
+    have h2 := max_loop2 (toGen s cap) p pg ls X pg.size f (Nat.le_refl _) hf
+    rw [len_toList, h2]
+    cases List.find? (fun l => decide (pg.getD l 0 > 0))
+        (List.filter (fun l => decide (l ≥ ls)) (List.range pg.size).reverse) with
+    | none => exact hnext
+    | some l =>
+      simp only [Loop.elim_ret, rd_index]
+      rfl
+
+/-- what `MaxIndex` returns after the page loop -/
+def maxK (bmax : Option Int) : Int → Res (Int × GoErr) := fun _ =>
+  if bmax.isNone then .ok ((0 : Int), errUndefinedMaxIndex) else .ok (bmax.getD 0, GoErr.nil)
+
+theorem maxK_eq (bmax : Option Int) (x : Int) : maxK bmax x = .ok (maxOut bmax) := by
+  cases bmax <;> rfl
+
+theorem max_loop1 (s : PStore) (cap : Int) (bmax : Option Int) :
+    ∀ (k fuel : Nat), k ≤ s.pages.size → k + maxPageSize s + 1 ≤ fuel →
+      Loop.elim (BufferedPaginatedStore.MaxIndex.loop1 (toGen s cap) bmax.isNone (bmax.getD 0) fuel
+          (s.minPageIndex + (k : Int) - 1)) (maxK bmax)
+        = .ok (maxOut (PStore.maxIndex?.scan s bmax (List.range k).reverse)) := by
+  intro k
+  induction k with
+  | zero =>
+    intro fuel hk hf
+    obtain ⟨f, rfl⟩ : ∃ f, fuel = f + 1 := ⟨fuel - 1, by omega⟩
+    unfold BufferedPaginatedStore.MaxIndex.loop1
+    have : ¬ (s.minPageIndex ≤ s.minPageIndex + ((0 : Nat) : Int) - 1) := by omega
+    simp only [toGen_minPageIndex, this, decide_false, Bool.false_and]
+    simp only [Bool.false_eq_true, if_false, Loop.elim_done, List.range_zero, List.reverse_nil]
+    unfold PStore.maxIndex?.scan
+    exact maxK_eq _ _
+  | succ k ih =>
+    intro fuel hk hf
+    obtain ⟨f, rfl⟩ : ∃ f, fuel = f + 1 := ⟨fuel - 1, by omega⟩
+    have hklt : k < s.pages.size := by omega
+    have hnext := ih f (by omega) (by omega)
+    unfold BufferedPaginatedStore.MaxIndex.loop1
+    rw [List.range_succ, List.reverse_append, List.reverse_singleton, List.singleton_append]
+    unfold PStore.maxIndex?.scan
+    rw [show s.minPageIndex + ((k + 1 : Nat) : Int) - 1 = s.minPageIndex + (k : Int) by omega]
+    have h1 : s.minPageIndex ≤ s.minPageIndex + (k : Int) := by omega
+    simp only [toGen_minPageIndex, toGen_pages, h1, decide_true, Bool.true_and, rd_pageIndex]
+    have hidx : GoSem.idx (pagesL s) (s.minPageIndex + (k : Int) - s.minPageIndex)
+        = some (s.pages.getD k #[]).toList := by
+      rw [show s.minPageIndex + (k : Int) - s.minPageIndex = (k : Int) by omega]
+      exact pages_idx s k hklt
+    rw [hidx]
+    have hpg := size_le_maxPageSize s k
+    generalize s.pages.getD k #[] = pg at hpg ⊢
+    cases bmax with
+    | none =>
+      simp only [Option.isNone_none, Bool.true_or, if_true, GoSem.optL_some, Bool.not_true,
+        Bool.false_and, Bool.false_eq_true, if_false] at hnext ⊢
+      exact max_page s cap pg _ f 0 _ rfl (by omega) _ _ _ hnext
+    | some m =>
+      simp only [Option.isNone_some, Bool.false_or, Bool.not_false, Bool.true_and,
+        Option.getD_some] at hnext ⊢
+      by_cases hcont : s.pageIndex m ≤ s.minPageIndex + (k : Int)
+      · simp only [ge_iff_le, hcont, decide_true, if_true, GoSem.optL_some, Bool.not_true,
+          Bool.false_eq_true, if_false]
+        by_cases hp : s.minPageIndex + (k : Int) = s.pageIndex m
+        · simp only [hp, beq_self_eq_true, if_true]
+          rw [hp] at hnext
+          exact max_page s cap pg _ f (s.lineIndex m) _ (rd_lineIndex s cap m) (by omega) _ _ _ hnext
+        · have hp' : (s.minPageIndex + (k : Int) == s.pageIndex m) = false := by simpa using hp
+          simp only [hp, hp', Bool.false_eq_true, if_false]
+          exact max_page s cap pg _ f 0 _ rfl (by omega) _ _ _ hnext
+      · simp only [ge_iff_le, hcont, decide_false, Bool.false_eq_true, if_false, Loop.elim_done,
+          Bool.not_false, if_true]
+        exact maxK_eq _ _
+
+/-- fuel for `MaxIndex`: one unit per allocated page slot, plus one scan of the largest page -/
+def maxFuel (s : PStore) : Nat := s.pages.size + maxPageSize s + 1
+
+/-- **MaxIndex**: the generated code computes the model's `maxIndex?`, for every store -/
+theorem MaxIndex_eq (s : PStore) (cap : Int) (fuel : Nat) (hf : maxFuel s ≤ fuel) :
+    BufferedPaginatedStore.MaxIndex fuel (toGen s cap)
+      = .ok (match s.maxIndex? with
+             | some m => (m, GoErr.nil)
+             | none => ((0 : Int), errUndefinedMaxIndex)) := by
+  unfold BufferedPaginatedStore.MaxIndex
+  simp only [toGen_buffer, max_loop3, Loop.elim_done, toGen_minPageIndex, toGen_pages, len_pagesL]
+  exact max_loop1 s cap (PStore.listMax? s.buffer) s.pages.size fuel (Nat.le_refl _)
+    (by unfold maxFuel at hf; omega)
+
 end DDS.GenPag
